@@ -806,6 +806,19 @@ SyntaxVisitor::Action TypeChecker::visitExpressionInitializer(
     auto leftTy = unqualifiedAndResolved(ty_);
     VISIT(node->expression());
     auto rightTy = unqualifiedAndResolved(ty_);
+
+    // An array of character type may be initialized by a string literal,
+    // optionally enclosed in braces (6.7.9-14 and 15).
+    if (leftTy->kind() == TypeKind::Array
+            && rightTy->kind() == TypeKind::Array
+            && node->expression()->kind() == SyntaxKind::StringLiteralExpression
+            && typesAreCompatible(
+                    leftTy->asArrayType()->elementType(),
+                    rightTy->asArrayType()->elementType(),
+                    false,
+                    true))
+        return Action::Quit;
+
     if (!isTypeAssignableFromOtherType(leftTy, rightTy, node->expression()))
         diagReporter_.IncompatibleTypesInInitialization(node->expression()->firstToken());
 
@@ -1167,7 +1180,7 @@ SyntaxVisitor::Action TypeChecker::visitPrefixUnaryExpression(
     switch (node->operatorToken().kind()) {
         case SyntaxKind::PlusPlusToken:
         case SyntaxKind::MinusMinusToken: {
-            auto coreTy = unqualifiedAndResolved(ty_);
+            auto coreTy = enumeratedTypeAsInt(unqualifiedAndResolved(ty_));
             if (!(isRealType(coreTy) || coreTy->kind() == TypeKind::Pointer)) {
                 diagReporter_.InvalidOperator(node->operatorToken());
                 return typeCheckError(node);
@@ -1246,7 +1259,7 @@ SyntaxVisitor::Action TypeChecker::visitPostfixUnaryExpression(
     switch (node->operatorToken().kind()) {
         case SyntaxKind::PlusPlusToken:
         case SyntaxKind::MinusMinusToken: {
-            auto coreTy = unqualifiedAndResolved(ty_);
+            auto coreTy = enumeratedTypeAsInt(unqualifiedAndResolved(ty_));
             if (!(isRealType(coreTy) || coreTy->kind() == TypeKind::Pointer)) {
                 diagReporter_.InvalidOperator(node->operatorToken());
                 return typeCheckError(node);
